@@ -86,6 +86,25 @@ class Concretizer:
         walk(v)
         return out
 
+    def enc_pyobj(self, val):
+        """model value of sort PyObj -> JSON"""
+        nm = val.decl().name()
+        if nm == 'py_none':
+            return {'t': 'none'}
+        if nm == 'py_bool':
+            return {'t': 'bool', 'v': z3.is_true(self.ev(val.arg(0)))}
+        if nm == 'py_int':
+            return {'t': 'int', 'v': self.ev(val.arg(0)).as_long()}
+        if nm == 'py_str':
+            return {'t': 'str', 'v': _z3str(self.ev(val.arg(0)))}
+        if nm == 'py_strlist':
+            return {'t': 'list', 'v': [{'t': 'str', 'v': _z3str(self.ev(e))} for e in self.seq_elems(val.arg(0))]}
+        if nm == 'py_tuple0':
+            return {'t': 'tuple', 'v': []}
+        if nm == 'py_tuple2':
+            return {'t': 'tuple', 'v': [self.enc_pyobj(self.ev(val.arg(0))), self.enc_pyobj(self.ev(val.arg(1)))]}
+        raise Unsupported(f'cannot concretise PyObj value {val}')
+
     def enc(self, v, heap=None):
         heap = heap if heap is not None else self.st.heap
         if isinstance(v, tuple) and v and v[0] == 'star':
@@ -111,6 +130,10 @@ class Concretizer:
             if uses_abstract(v.z):
                 return {'t': 'any'}
             return {'t': 'str', 'v': _z3str(self.ev(v.z))}
+        if isinstance(v, VPy):
+            if uses_abstract(v.z):
+                return {'t': 'any'}
+            return self.enc_pyobj(self.ev(v.z))
         if isinstance(v, VOpt):
             if z3.is_true(self.ev(v.isnone)):
                 return {'t': 'none'}
@@ -125,6 +148,30 @@ class Concretizer:
             return {'t': 'dict', 'v': [[self.enc(wrap(k)), self.enc(x, heap)] for k, x in v.items.items()]}
         if isinstance(v, VSet):
             return {'t': 'set', 'v': sorted((self.enc(wrap(k)) for k in v.items), key=repr)}
+        if isinstance(v, VSymSet):
+            # symbolic set: the members among the keys this path ever tested / added (other members are irrelevant)
+            if uses_abstract(v.z):
+                return {'t': 'any'}
+            items, seen = [], set()
+            for kz in self.st.heap.get('__setkeys__', ()):
+                if kz.sort() != v.z.domain():
+                    continue
+                kv = self.ev(kz)
+                if str(kv) in seen:
+                    continue
+                seen.add(str(kv))
+                if z3.is_true(self.ev(z3.Select(v.z, kv))):
+                    items.append(self.enc(from_z3(kv, v.elem), heap))
+            return {'t': 'set', 'v': sorted(items, key=repr)}
+        if isinstance(v, VReal):
+            if uses_abstract(v.z):
+                return {'t': 'any'}
+            val = self.ev(v.z)
+            from fractions import Fraction
+            fr = Fraction(val.numerator_as_long(), val.denominator_as_long())
+            if Fraction(float(fr)) != fr:
+                raise Unsupported(f'real value {fr} is not exactly a float')
+            return {'t': 'float', 'v': float(fr)}
         if isinstance(v, VMap):
             items = []
             seen = set()
@@ -190,7 +237,7 @@ def same(pred, nat, path=''):
     if pred.get('t') == 'opaque' and pred.get('sort') == 'Tag':
         return []       # symbolic callable reference: nothing to compare
     if pred.get('t') == 'tag' and nat.get('t') == 'tag':
-        pn = pred['v'].rsplit('.', 1)[-1].replace('method:', '')
+        pn = pred['v'].rsplit('.', 1)[-1].replace('method:', '').replace('localfn:', 'function:')
         nn = nat['v'].rsplit('.', 1)[-1].replace('method:', '')
         return [] if pn == nn else [f'{path}: predicted {pred["v"]}, real {nat["v"]}']
     if pred.get('t') == 'exc' and nat.get('t') == 'exc':
@@ -232,7 +279,9 @@ def same(pred, nat, path=''):
     if t == 'none':
         return []
     if t == 'set':
-        return [] if pred['v'] == nat['v'] else [f'{path}: set differs']
+        def norm(x):      # opaque members compare by name only (the prediction carries extra keys: sort, truthy)
+            return (x.get('t'), x.get('name') if x.get('t') == 'opaque' else json.dumps(x.get('v'), sort_keys=True))
+        return [] if sorted(map(norm, pred['v'])) == sorted(map(norm, nat['v'])) else [f'{path}: set differs']
     return []
 
 
@@ -261,6 +310,8 @@ def build_job(res, outcome_state, model, engine=None, rebase=None):
         init = spec.inline.get(rec.cls + '.__init__')
         if init is not None:
             o['real'] = [init[0], rec.cls]      # class executed from its real source: build a real instance
+        if rec.cls in getattr(spec, 'native_isinstance', ()):
+            o['isa'] = rec.cls                  # opt-in: the native collaborator passes isinstance(x, <that class>)
         tf = spec.truthy.get(rec.cls)
         if tf is not None:
             o['truthy'] = z3.is_true(cz.ev(tf(ex, entry if a in entry.heap else final, VRef(a, rec.cls))))
@@ -279,6 +330,11 @@ def build_job(res, outcome_state, model, engine=None, rebase=None):
                'args': flat_args([cz.enc(a) for a in c.get('args', [])]), 'line': c.get('line')}
         if c.get('exc') is not None:
             ent['exc'] = cz.enc(c['exc'])
+        if c.get('osets'):
+            # effects of the stubbed call on objects other than its receiver (e.g. a decoder advancing a packet)
+            ent['osets'] = [[r_.addr, f_, cz.enc(v_)] for r_, f_, v_ in c['osets']]
+        if c.get('awaited'):
+            ent['awaited'] = True       # the call was directly awaited: answer it with an awaitable
         script.append(ent)
     fn = extract.get_module(spec.module).get_function(spec.qualname)
     params = [a.arg for a in fn.args.args]
@@ -294,6 +350,11 @@ def build_job(res, outcome_state, model, engine=None, rebase=None):
     job = {'module': spec.module, 'qualname': spec.qualname, 'objects': objects, 'script': script,
            'args': args, 'kwargs': kwargs}
     job['opaque_native'] = getattr(spec, 'opaque_native', {}) or {}
+    # opt-in (spec.patch_globals = [names]): module-level constants the sidecar generalised to symbolic values
+    # (Spec(globals=...)) are set to the model's values in the native run, so the replay stays faithful
+    pg = getattr(spec, 'patch_globals', None)
+    if pg:
+        job['patch_globals'] = {n: cz.enc(spec.globals[n]) for n in pg}
     if spec.self_class:
         job['self'] = {'addr': ex.self_ref.addr}
         rc = getattr(spec, 'runtime_class', None)
@@ -356,7 +417,27 @@ REAL_IMPLS = {
     'encode_utf8': lambda s_: s_.encode('utf-8'), 'utf8': lambda s_: s_.encode('utf-8'),
     'zeros': lambda n: bytes(n) if 0 <= n < 10000 else None,
     'join_b': lambda sep, items: bytes(sep).join(items),
+    'bytes_repeat': lambda b_, n: bytes(b_) * n if n < 100000 else None,
+    'wsplit_n': lambda x, k: len(bytes(x).split(None, k)) if k >= 0 else None,
+    'wsplit_f': lambda x, k, i: (bytes(x).split(None, k)[i] if 0 <= i < len(bytes(x).split(None, k)) else None)
+    if k >= 0 else None,
+    'iota': lambda lo, hi: bytes(range(lo, hi)) if (hi <= lo or (0 <= lo and hi <= 256)) else None,
+    'upper_b': lambda b: bytes(b).upper(),
+    'lower_s': lambda s_: s_.lower(), 'strip_s': lambda s_: s_.strip(),
+    'int_literal_ok_s': lambda s_: _int_literal(s_) is not None,
+    'int_literal_val_s': lambda s_: _int_literal(s_),
+    'int_literal_ok_b': lambda b: _int_literal(bytes(b)) is not None,
+    'int_literal_val_b': lambda b: _int_literal(bytes(b)),
+    'int_literal_ok_b8': lambda b: _int_literal(bytes(b), 8) is not None,
+    'int_literal_val_b8': lambda b: _int_literal(bytes(b), 8),
 }
+
+
+def _int_literal(s_, base=10):
+    try:
+        return int(s_, base)
+    except ValueError:
+        return None
 
 
 def _py_of(model, z):
@@ -432,13 +513,13 @@ def _apps(terms):
     return out
 
 
-def refined_model(pc, extra, impls=None, rounds=6):
+def refined_model(pc, extra, impls=None, rounds=6, timeout_ms=None, retries=0):
     """Model of pc+extra in which the registered abstracted functions agree with their real implementations."""
     from . import solve
     add = list(extra)
     m = None
     for _ in range(rounds):
-        m = solve.model_for(pc, add)
+        m = solve.model_for(pc, add, timeout_ms, retries)
         if m is None:
             return None
         fixes = []
@@ -480,6 +561,8 @@ def compare(res, outcome, model, job, cz, nat):
             diffs.append(f'predicted raise {outcome.value.cls}, real returned {oc.get("value")}')
         elif outcome.value.cls not in oc['mro'] and oc['cls'] != outcome.value.cls:
             diffs.append(f'predicted raise {outcome.value.cls}, real raised {oc["cls"]}: {oc.get("msg")}')
+        elif oc['cls'] == 'OpaqueExc' and 'opaque' in getattr(outcome.value, 'attrs', {}):
+            pass        # an exception *object* of the uninterpreted sort Exc was raised, as predicted
         elif oc['cls'] != outcome.value.cls:
             diffs.append(f'predicted raise {outcome.value.cls}, real raised subclass {oc["cls"]}')
     # final fields of every initial object
@@ -543,14 +626,39 @@ def byte_ranges(terms, upto=24):
     return out
 
 
+def _ranges_hold(m, terms, upto=24):
+    """do all byte-string constants of `terms` evaluate, in model m, to strings of at most 4*upto bytes 0..255?"""
+    try:
+        for imp in byte_ranges(terms, upto):
+            if not z3.is_true(m.eval(imp, model_completion=True)):
+                return False
+    except z3.Z3Exception:
+        return False
+    return True
+
+
 def prepare(res, outcome, extra=(), defs=True):
     """-> dict(status=...) | dict(job, cz, model)"""
     st = outcome.state
     add = list(extra)
     if defs:
         add += list(st.heap.get('__defs__', ()))
-    add += byte_ranges(list(st.pc) + add)
-    m = refined_model(st.pc, add)
+    # the explicit 0..255 instances are expensive for the sequence solver: first try without them and keep that
+    # model only if every byte-string constant already evaluates to (short) strings of bytes
+    m = None
+    if getattr(res.spec, 'lazy_byte_ranges', False):
+        m = refined_model(st.pc, add, timeout_ms=None if extra else getattr(res.spec, 'model_timeout_ms', None),
+                          retries=getattr(res.spec, 'confirm_retries', 0) if extra else 0)
+        if m is None:
+            return {'status': 'no-model'}      # the harder problem (with the range instances) is not attempted
+        if not _ranges_hold(m, list(st.pc) + add):
+            m = None
+    if m is None:
+        add += byte_ranges(list(st.pc) + add)
+        # opt-in (spec.model_timeout_ms): shorter witness search for the plain per-path cross-check (extra == ());
+        # the confirmation of a refuted obligation always gets the full budget
+        m = refined_model(st.pc, add, timeout_ms=None if extra else getattr(res.spec, 'model_timeout_ms', None),
+                          retries=getattr(res.spec, 'confirm_retries', 0) if extra else 0)
     if m is None:
         return {'status': 'no-model'}
     try:
